@@ -48,6 +48,10 @@ structure ClassInfo where
   childDictForeign : String
   childListForeign : String
   api : List ApiEntry
+  /-- public mutators the in-place merge `_update` calls on `self` (each would take the thread lock) -/
+  mergeCalls : List String
+  /-- contexts the merge enters -/
+  mergeCtxs : List Ctx
 deriving Repr
 
 structure FamInfo where
